@@ -36,6 +36,9 @@ pub struct ImportCase {
     pub transitive: bool,
     /// also reference one name that is not visible (expects an unresolved-identifier diagnostic)
     pub use_hidden: bool,
+    /// lib_a and main each declare an enum `Shade`; main matches on its own with qualified variant patterns
+    #[serde(default)]
+    pub enum_scenario: bool,
 }
 
 fn short(file: &str) -> String {
@@ -65,6 +68,9 @@ fn build(c: &ImportCase) -> Layout {
             text.push_str(&format!("fn {n}() -> string {{\n  \"{}.{n}\"\n}}\n", short(FILES[fi])));
         }
         text.push_str(&format!("fn only_{}() -> string {{\n  \"{}.only\"\n}}\n", short(FILES[fi]), short(FILES[fi])));
+        if c.enum_scenario && fi == 0 {
+            text.push_str("type Shade =\n  | Dark\n  | Light\n\nfn lib_shade(s: Shade) -> string {\n  match s {\n    Shade.Dark -> \"lib.dark\"\n    Shade.Light -> \"lib.light\"\n  }\n}\n");
+        }
         files.push(SrcFile { path: format!("{}.abra", FILES[fi]), text });
     }
     let mut visible: BTreeMap<String, BTreeSet<String>> = BTreeMap::new();
@@ -79,6 +85,9 @@ fn build(c: &ImportCase) -> Layout {
         }
         let mut declared: Vec<String> = decl_names(c.decls[fi]).iter().map(|s| s.to_string()).collect();
         declared.push(format!("only_{}", short(FILES[fi])));
+        // the enum and its function are only ever imported by the glob and except forms (the lists pick by index
+        // among the names above)
+        let extra: Vec<String> = if c.enum_scenario && fi == 0 { vec!["Shade".to_string(), "lib_shade".to_string()] } else { vec![] };
         let pick = |idxs: &Vec<u8>| -> Vec<String> {
             let mut v: Vec<String> = vec![];
             for i in idxs {
@@ -92,7 +101,7 @@ fn build(c: &ImportCase) -> Layout {
         let imported: Vec<String> = match form {
             UseForm::Glob => {
                 main.push_str(&format!("use {}\n", FILES[fi]));
-                declared.clone()
+                declared.iter().chain(extra.iter()).cloned().collect()
             }
             UseForm::Only(idxs) => {
                 uses_nonglob = true;
@@ -112,7 +121,7 @@ fn build(c: &ImportCase) -> Layout {
                 } else {
                     main.push_str(&format!("use {} except ({})\n", FILES[fi], names.join(", ")));
                 }
-                declared.iter().filter(|d| !names.contains(d)).cloned().collect()
+                declared.iter().filter(|d| !names.contains(d)).chain(extra.iter()).cloned().collect()
             }
             UseForm::As(p) => {
                 uses_nonglob = true;
@@ -132,6 +141,13 @@ fn build(c: &ImportCase) -> Layout {
         visible.entry(n.to_string()).or_default().insert("main".into());
     }
     let mut expected_out = String::new();
+    if c.enum_scenario {
+        // main's own enum of the same name: its qualified variant patterns must mean main's variants
+        main.push_str("type Shade =\n  | Dark\n  | Light\n  | Mid\n\nfn shade_name(s: Shade) -> string {\n  match s {\n    Shade.Dark -> \"main.dark\"\n    Shade.Light -> \"main.light\"\n    Shade.Mid -> \"main.mid\"\n  }\n}\n");
+        visible.entry("Shade".to_string()).or_default().insert("main".into());
+        main.push_str("println(shade_name(Shade.Mid))\nprintln(shade_name(Shade.Dark))\n");
+        expected_out.push_str("main.mid\nmain.dark\n");
+    }
     // qualified access through every prefix
     for (p, fi) in &prefixes {
         for n in decl_names(c.decls[*fi]) {
@@ -143,7 +159,7 @@ fn build(c: &ImportCase) -> Layout {
     // (a local value binding named like a namespace alias is not generated: nothing documents that case)
     let shadow = c.local_shadow.map(|i| POOL[i as usize % POOL.len()].to_string()).filter(|s| !prefixes.iter().any(|(p, _)| p == s));
     for (n, places) in &visible {
-        if places.len() == 1 && Some(n) != shadow.as_ref() && !places.iter().next().unwrap().starts_with("alias-of-") {
+        if places.len() == 1 && Some(n) != shadow.as_ref() && !places.iter().next().unwrap().starts_with("alias-of-") && n != "Shade" && n != "lib_shade" {
             main.push_str(&format!("println({n}())\n"));
             expected_out.push_str(&format!("{}.{}\n", places.iter().next().unwrap(), if n.starts_with("only_") { "only" } else { n }));
         }
@@ -181,7 +197,7 @@ impl Prop for Imports {
         "imports"
     }
     fn rule(&self) -> &'static str {
-        "one case = 1..4 library files (two in sub-directories) declaring subsets of a 6-name pool (every function returns the tag 'file.name'), a main file with one `use` per chosen library in one of the forms glob / single / list / except / except-list / as-prefix (the prefix sometimes equal to a pool name, so that the alias itself can clash), own declarations, an optional local binding shadowing a function name, an optional transitive import inside a library, and optionally one reference to a hidden name; the model computes the effective namespace: a name with two visible declarations => a clash diagnostic; a hidden name used unqualified => an unresolved-identifier diagnostic whose range is that name; otherwise every visible name and every prefix-qualified name prints the tag of the declaration the model resolves; non-trivial = >= 2 files and >= 1 non-glob import form; distinct by case"
+        "one case = 1..4 library files (two in sub-directories) declaring subsets of a 6-name pool (every function returns the tag 'file.name'), a main file with one `use` per chosen library in one of the forms glob / single / list / except / except-list / as-prefix (the prefix sometimes equal to a pool name, so that the alias itself can clash), own declarations, an optional local binding shadowing a function name, an optional transitive import inside a library, optionally an enum `Shade` declared both in lib_a and (with an extra variant) in main, matched in main with qualified variant patterns, and optionally one reference to a hidden name; the model computes the effective namespace: a name with two visible declarations => a clash diagnostic; a hidden name used unqualified => an unresolved-identifier diagnostic whose range is that name; otherwise every visible name and every prefix-qualified name prints the tag of the declaration the model resolves; non-trivial = >= 2 files and >= 1 non-glob import form; distinct by case"
     }
     fn n_cases(&self, tier: Tier) -> u32 {
         tier.pick(2500, 40000)
@@ -189,8 +205,8 @@ impl Prop for Imports {
     fn strategy(&self, _tier: Tier, _f: &Findings) -> BoxedStrategy<Self::Case> {
         let idxs = || proptest::collection::vec(0u8..7, 1..4);
         let form = prop_oneof![3 => Just(UseForm::Glob), 3 => idxs().prop_map(UseForm::Only), 3 => idxs().prop_map(UseForm::Except), 2 => "p[a-c]".prop_map(UseForm::As), 1 => (0usize..POOL.len()).prop_map(|i| UseForm::As(POOL[i].to_string()))];
-        (proptest::collection::vec(0u8..64, 1..5), proptest::collection::vec((0u8..4, form), 0..4), prop_oneof![3 => Just(0u8), 1 => 0u8..64], proptest::option::weighted(0.3, 0u8..6), any::<bool>(), proptest::bool::weighted(0.3))
-            .prop_map(|(decls, uses, own, local_shadow, transitive, use_hidden)| {
+        (proptest::collection::vec(0u8..64, 1..5), proptest::collection::vec((0u8..4, form), 0..4), prop_oneof![3 => Just(0u8), 1 => 0u8..64], proptest::option::weighted(0.3, 0u8..6), any::<bool>(), proptest::bool::weighted(0.3), proptest::bool::weighted(0.3))
+            .prop_map(|(decls, uses, own, local_shadow, transitive, use_hidden, enum_scenario)| {
                 // prefixes must be distinct per import
                 let mut seen = BTreeSet::new();
                 let uses = uses
@@ -200,7 +216,7 @@ impl Prop for Imports {
                         other => (f, other),
                     })
                     .collect();
-                ImportCase { decls, uses, own, local_shadow, transitive, use_hidden }
+                ImportCase { decls, uses, own, local_shadow, transitive, use_hidden, enum_scenario }
             })
             .boxed()
     }
